@@ -26,6 +26,8 @@ def main():
             r = json.load(open(rp)) if os.path.exists(rp) else {}
             if not r:
                 verdict = "not run yet"
+            elif r.get("apply_rc") not in (0, None):
+                verdict = "patch does not apply to the current HEAD"
             elif r.get("demo_clean_rc") != 0 or not r.get("demo_mut_rc"):
                 verdict = ("obsolete on the repaired tree: the demonstration passes with and without the change (a later fix: commit removed the mechanism it relied on)" if r.get("demo_clean_rc") == 0 and r.get("demo_mut_rc") == 0 else "seed not confirmed (demo clean rc %s, changed rc %s)" % (r.get("demo_clean_rc"), r.get("demo_mut_rc")))
             elif r.get("check_rc") == 1 and r.get("n_violation_lines"):
